@@ -72,6 +72,12 @@ def live_invariant(d, op):
             raise Violation("blotter-view", ("live_orders", "live"), "order appears %d times in live_orders" % n_live, d.c)
         if blotter[o.id] is not o or d.lab.fw.markets.get_order(o.market_id, o.id) is not o:
             raise Violation("blotter-lookup", ("id", "live"), "lookup by id returns another object", d.c)
+        # replacement and adopted orders (they enter the blotter already carrying a bet id) are reachable by bet id
+        if o.bet_id and not any(o is x for x in d.orders):
+            got = blotter.get_order_bet_id(o.bet_id)
+            if got is not o:
+                raise Violation("blotter-lookup", ("bet-id", "live"), "bet id %s of a replacement / adopted order resolves to %s after %s" % (
+                    o.bet_id, "None" if got is None else "another order", op["op"]), d.c)
     d.classes.add("live-invariant-checked")
 
 
